@@ -40,8 +40,14 @@ Proof. exact c13_no_hidden_source. Qed.
 Example C13_nonvacuous : WF (init 5 2) /\ is_ichdch (OIch None) = true.
 Proof. split; [apply WF_init; discriminate|reflexivity]. Qed.
 
+(* ICH n then DCH n at the same position: the row is what it was, except that the cells pushed over the right edge are lost *)
+Theorem C13_ICH_then_DCH : forall (a : astate) n r c, c < a_cols a ->
+  a_grid (a_dch (a_ich a n) n) r c = if (r =? ay a) && (ax a <=? c) && (a_cols a <=? c + hat n) then adc a else a_grid a r c.
+Proof. exact c13_ich_then_dch. Qed.
+
 Print Assumptions C13_code_refines_spec.
 Print Assumptions C13_ICH.
 Print Assumptions C13_DCH.
 Print Assumptions C13_nothing_else_changes.
 Print Assumptions C13_result_depends_on_visible_cells_only.
+Print Assumptions C13_ICH_then_DCH.
